@@ -422,7 +422,7 @@ func VH_C10_reload() {
 	s := verifNewServer(sm)
 	g1 := Config{Services: []ServiceConfig{verifSvc([]verifLn{verifL1T, verifL1U}, verifKC("g1", verifKeys[0]))}}
 	verifAssert("C10.first-load-ok", verifLoadCfg(s, &verifCfgStep{cfg: g1}) == nil)
-	all := []verifLn{verifL1T, verifL1U, verifL2T, verifL2U, verifL3T}
+	all := []verifLn{verifL1T, verifL1U, verifL2T, verifL2U, verifL3T, {true, 9204}, {false, 9204}}
 
 	// the failing configuration: new key, new listeners, and one fault
 	bad := Config{Services: []ServiceConfig{
@@ -431,7 +431,7 @@ func VH_C10_reload() {
 	}}
 	step := &verifCfgStep{cfg: bad}
 	var blocker *net.TCPListener
-	fault := verifChoice("fault", 8)
+	fault := verifChoice("fault", 9)
 	switch fault {
 	case 0:
 		step.readErr = true
@@ -448,6 +448,9 @@ func VH_C10_reload() {
 		blocker, _ = net.ListenTCP("tcp", &net.TCPAddr{IP: net.IPv4(127, 0, 0, 1), Port: 9203})
 	case 6:
 		service.VerifOccupyPacket(verifL2U.addr())
+	case 8:
+		// a legacy key whose port is out of range (it must not wrap around to a valid port)
+		step.cfg.Keys = append(step.cfg.Keys, LegacyKeyServiceConfig{KeyConfig: verifKC("legacy", verifKeys[0]), Port: 65536 + 9204})
 	case 7:
 		// a key with a bad cipher that shares its secret with a good key of the same service
 		step.cfg.Services[1].Keys = append(step.cfg.Services[1].Keys, KeyConfig{ID: "bad-3", Cipher: "rot13", Secret: verifKeys[2].secret})
@@ -769,4 +772,76 @@ func VH_C11_failed_reload_keeps_bindings() {
 	verifAssert("C11.failed-reload.stop-ok", s.Stop() == nil)
 	verifQuiesce()
 	verifReach("C11.failed-reload.done", true)
+}
+
+// C11: connections that arrive while the new configuration is being started (here: at the moment
+// a later listener of the new configuration is bound) are served, by either generation, and a
+// key present in both configurations authenticates
+func VH_C11_connections_while_new_config_starts() {
+	sm := &verifSvcMetrics{}
+	s := verifNewServer(sm)
+	g1 := Config{Services: []ServiceConfig{verifSvc([]verifLn{verifL1T}, verifKC("old", verifKeys[0]))}}
+	g2 := Config{Services: []ServiceConfig{
+		verifSvc([]verifLn{verifL1T}, verifKC("new", verifKeys[0])),
+		verifSvc([]verifLn{verifL2U}, verifKC("other", verifKeys[2])),
+	}}
+	verifAssert("C11.starting.first-load-ok", verifLoadCfg(s, &verifCfgStep{cfg: g1}) == nil)
+	arrived := 0
+	service.VerifListenPacketHook = func(address string) {
+		if address != verifL2U.addr() || arrived > 0 {
+			return
+		}
+		verifQuiesce() // whatever was started so far is up and waiting
+		// clients connect now, one after the other
+		for n := 1; n <= 3; n++ {
+			arrived++
+			served, _ := verifPresent(sm, 9201, verifKeys[0], n)
+			verifAssert("C11.starting.retained-key-authenticates-throughout", served)
+		}
+	}
+	err := verifLoadCfg(s, &verifCfgStep{cfg: g2})
+	service.VerifListenPacketHook = nil
+	verifAssert("C11.starting.reload-ok", err == nil)
+	verifAssert("C11.starting.clients-arrived-during-the-reload", arrived == 3)
+	verifAssert("C11.starting.stop-ok", s.Stop() == nil)
+	verifQuiesce()
+	verifReach("C11.starting.done", true)
+}
+
+// C07: the history the server is started with (replay_history N) really covers the N most recent
+// handshakes, wherever the history is in its rotation
+func VH_C07_configured_history() {
+	const n = 4
+	sm := &verifSvcMetrics{}
+	service.VerifResetPackets()
+	cfg := Config{Services: []ServiceConfig{verifSvc([]verifLn{verifL1T}, verifKC("k", verifKeys[0]))}}
+	verifCfgNext = &verifCfgStep{cfg: cfg}
+	s, err := RunOutlineServer("config.yml", defaultNatTimeout, newPrometheusServerMetrics(), sm, n)
+	verifQuiesce()
+	verifAssert("C07.configured.started", err == nil && s != nil)
+	if err != nil {
+		return
+	}
+	before := verifChoice("earlier-handshakes", n)
+	between := verifChoice("handshakes-in-between", n) // at most n-1 others after H
+	num := 1
+	for i := 0; i < before; i++ {
+		served, _ := verifPresent(sm, 9201, verifKeys[0], num)
+		verifAssert("C07.configured.new-handshake-served", served)
+		num++
+	}
+	h := num
+	num++
+	served, _ := verifPresent(sm, 9201, verifKeys[0], h)
+	verifAssert("C07.configured.first-presentation-served", served)
+	for i := 0; i < between; i++ {
+		served, _ := verifPresent(sm, 9201, verifKeys[0], num)
+		verifAssert("C07.configured.new-handshake-served", served)
+		num++
+	}
+	served, probe := verifPresent(sm, 9201, verifKeys[0], h)
+	verifAssert("C07.configured.replay-within-the-configured-history-refused", !served && probe)
+	verifAssert("C07.configured.stop-ok", s.Stop() == nil)
+	verifQuiesce()
+	verifReach("C07.configured.done", true)
 }
